@@ -102,6 +102,9 @@ def const_int(e, depth=0):
         return e.a[0]
     if depth > 8:
         return None
+    if e.k == "call" and e.a[0].name == "size_of" and not e.a[1]:
+        import shapes
+        return shapes.fold_const(e)
     if e.k == "field" and e.a[1] == "0" and e.a[0].k == "binop" and e.a[0].a[0].endswith("WithOverflow"):
         e = e.a[0]
     if e.k == "binop":
